@@ -8,9 +8,9 @@ fn go<N: FromLabel + NumericOps>(op: &str, args: &[Arg]) -> Option<String> {
     let mkn = |sh: &Vec<usize>, es: &Vec<i128>| Array::new(es.iter().map(|&x| N::conv(pool, x)).collect(), sh.clone()).ok();
     let (a, b) = match args { [Arg::A(s1, e1), Arg::A(s2, e2)] => (mkn(s1, e1)?, mkn(s2, e2)?), _ => return None };
     Some(match op {
-        "vdot" => res_arr(&a.vdot(&b)), "inner" => res_arr(&a.inner(&b)), "outer" => res_arr(&a.outer(&b)),
-        "matmul" | "matmul_pinned" => res_arr(&a.matmul(&b)),
-        "dot" | "dot_pinned" => res_arr(&a.dot(&b)),
+        "vdot" => w2(res_arr(&a.vdot(&b)), res_arr(&okr(&a).vdot(&b))), "inner" => w2(res_arr(&a.inner(&b)), res_arr(&okr(&a).inner(&b))), "outer" => w2(res_arr(&a.outer(&b)), res_arr(&okr(&a).outer(&b))),
+        "matmul" | "matmul_pinned" => w2(res_arr(&a.matmul(&b)), res_arr(&okr(&a).matmul(&b))),
+        "dot" | "dot_pinned" => w2(res_arr(&a.dot(&b)), res_arr(&okr(&a).dot(&b))),
         _ => return None,
     })
 }
